@@ -847,7 +847,7 @@ func (h *Hub) processRegister(c HandlerClient, message *ClientMessage, backend *
 	client, ok := c.(*Client)
 	if !ok {
 		log.Printf("Can't register non-client %T", c)
-		client.SendMessage(message.NewWrappedErrorServerMessage(errors.New("can't register non-client")))
+		c.SendMessage(message.NewWrappedErrorServerMessage(errors.New("can't register non-client")))
 		return
 	}
 
